@@ -16,7 +16,7 @@ PROPERTY = {
         'documents are parsed through Builder.add_source (source-level safety True), as Config.build does',
         'observational equality = for every node: kind, value, effective priority/delete/allow_new/safe, the explicit remove-this-key marker on empty nodes, the flags a container hands to children attached later, user metadata; plus equal results of probe merges in which the document is substituted',
     ],
-    'bounds': {'shapes': '10 two-site shapes (one holding quoted strings that look like f-strings, numbers, null, booleans, tags) (mapping/list/scalar/null/value-less/empty container/function node below mapping/list/function node) + 14 node kinds of the tag vocabulary below a flagged mapping',
+    'bounds': {'shapes': '10 two-site shapes (one holding quoted strings that look like f-strings, numbers, null, booleans, tags) (mapping/list/scalar/null/value-less/empty container/function node below mapping/list/function node) + 18 node kinds of the tag vocabulary (incl. function nodes with out-of-order integer keys, list-form and mixed arguments) below a flagged mapping',
                'flags per site': 'one of the pairs (priority, delete), (allow_new, safe), (delete, allow_new), (priority, safe), each flag absent or any value - symbolic', 'user metadata': 'present on the inner site (symbolic presence)'},
     'outside': ['explicit safe=True below an unsafe ancestor (no !safe tag exists in the loader)', 'documents evaluated from unsafe sources', 'anchors/aliases, comments, styles'],
     'per_split_timeout': {'quick': 600, 'thorough': 1800},
@@ -39,6 +39,8 @@ SHAPES = [
 KINDS = [
     "!xref a.c", "!eval 'a'", "f'{a}'", "!import math.pi", "!path [x]", "!path:parent(1) [x]", "!required ", "!clear ",
     "!append [1]", "!extend [2]", "!prev a.c", "!call:engine.targets.f {x: 1}", "!bind:engine.targets.g {y: [1]}", "!call engine.targets.f",
+    # positional arguments: out-of-order integer keys, list form, mixed positional / keyword
+    "!call:engine.targets.pos2 {1: t, 0: h}", "!bind:engine.targets.pos3 {2: z, 0: x, 1: y}", "!call:engine.targets.f [p, q]", "!call:engine.targets.mixed {1: 1, k: 2, 0: 0}",
 ]
 PAIRS = {'pd': ('priority', 'delete'), 'ns': ('allow_new', 'safe'), 'dn': ('delete', 'allow_new'), 'ps': ('priority', 'safe')}
 
